@@ -73,12 +73,12 @@ def _model_run(program, existing, files, reload_arg):
 
     class P(FlowPolicy):
         def inline_nested(self, fval):
-            return fval.name == "import_recurse"
+            return True  # the helper(s) load_scripts defines for the import closure are interpreted, whatever they are called
 
     pol = P(program, events=["global_ctx.stop", "GlobalContextMgr.delete", "Function.waiter_sync", "GlobalContextMgr.load_file"], may_raise_all=False, cancel=False, summaries=summ)
     pol.param_writeback = True
     pol.inline_depth = 12
-    pol.loop_unroll = 2
+    pol.loop_unroll = 24  # the import closure is a worklist loop
     pol.max_cfgs = 2000
     out = run_flow(program, LS, pol, args={"hass": Sym(("hass",)), "config_data": Sym(("config",)), "global_ctx_only": Const(reload_arg)}, heap=heap)
     results = []
@@ -222,6 +222,19 @@ def scenarios():
     ex = {"file.main": _e(imports={"modules.m1"}), "modules.m1": _e(imports={"modules.m2"}), "modules.m2": _e(), "file.other": _e()}
     fl = {"file.main": _f(rel_path="main.py"), "file.other": _f(rel_path="other.py"), "modules.m1": _f(autoload=False, rel_path="modules/m1.py")}
     S.append(("module at the end of an import chain deleted", ex, fl, None, ("file.main", "modules.m1", "modules.m2"), ("file.main",)))
+    # import cycle a <-> b (b imports a inside a function): a also imports m, m is edited - b imports a which imports the changed module
+    ex = {"file.main": _e(imports={"modules.a"}), "modules.a": _e(imports={"modules.b", "modules.m"}), "modules.b": _e(imports={"modules.a"}), "modules.m": _e(), "file.other": _e()}
+    fl = {"file.main": _f(rel_path="main.py"), "file.other": _f(rel_path="other.py"), "modules.a": _f(autoload=False, rel_path="modules/a.py"),
+          "modules.b": _f(autoload=False, rel_path="modules/b.py"), "modules.m": _f(src="new", autoload=False, rel_path="modules/m.py")}
+    S.append(("import cycle a <-> b, a also imports the edited module", ex, fl, None, ("file.main", "modules.a", "modules.b", "modules.m"), ("file.main",)))
+    ex = {"file.main": _e(imports={"modules.z"}), "modules.z": _e(imports={"modules.b", "modules.y"}), "modules.b": _e(imports={"modules.z"}), "modules.y": _e(), "file.other": _e()}
+    fl = {"file.main": _f(rel_path="main.py"), "file.other": _f(rel_path="other.py"), "modules.z": _f(autoload=False, rel_path="modules/z.py"),
+          "modules.b": _f(autoload=False, rel_path="modules/b.py"), "modules.y": _f(src="new", autoload=False, rel_path="modules/y.py")}
+    S.append(("import cycle z <-> b, z also imports the edited module (other iteration order)", ex, fl, None, ("file.main", "modules.b", "modules.y", "modules.z"), ("file.main",)))
+    # a file of an app package is deleted (or renamed with '#'): the package contains a change, so the app is re-executed
+    ex = {"apps.a1": _e(app_config={"x": 1}, imports={"apps.a1.helper"}), "apps.a1.helper": _e(), "file.main": _e()}
+    fl = {"apps.a1": _f(rel_path="apps/a1/__init__.py", app_config={"x": 1}), "file.main": _f(rel_path="main.py")}
+    S.append(("file inside an app package deleted", ex, fl, None, ("apps.a1", "apps.a1.helper"), ("apps.a1",)))
     return S
 
 
